@@ -413,6 +413,12 @@ def into_iter(I, v):
 
 
 def path_value(I, segs, env):
+    if segs[0] == "Self" and env.get("__self_ty__"):
+        segs = [env["__self_ty__"]] + list(segs[1:])
+        if len(segs) == 2:
+            fn = I.find_assoc(segs[0], segs[1], env)
+            if fn is not None:
+                return FnRef(fn[0], fn[1])
     s = "::".join(segs)
     consts = {"f64::NAN": float("nan"), "f64::INFINITY": float("inf"), "f64::NEG_INFINITY": float("-inf"),
               "usize::MAX": U64MAX, "u64::MAX": U64MAX, "u32::MAX": (1 << 32) - 1, "f64::EPSILON": 2.220446049250313e-16,
@@ -434,6 +440,8 @@ def path_value(I, segs, env):
 
 
 def call_path(I, segs, args, env, fexpr):
+    if segs[0] == "Self" and env.get("__self_ty__"):
+        segs = [env["__self_ty__"]] + list(segs[1:])
     s = "::".join(segs)
     last = segs[-1]
     if s in I.stubs:
